@@ -32,12 +32,15 @@ Theorem C07_tables :
 Proof. repeat split; reflexivity. Qed.
 
 (* BEGIN is sent only after an OK carrying a valid hexadecimal GUID was
-   received, and on a UNIX transport only after, later than that OK, the server
-   answered the descriptor negotiation with AGREE_UNIX_FD or ERROR. *)
+   received AND STILL STANDS - no REJECTED line was received between that OK and
+   the BEGIN (REJECTED withdraws the OK) - and on a UNIX transport only after,
+   later than that OK and while it stands, the server answered the descriptor
+   negotiation with AGREE_UNIX_FD or ERROR. *)
 Theorem C07_begin_only_after_ok :
   forall user lookup nonce sha1hex unix lines pre post,
     session_trace user lookup nonce sha1hex unix lines = pre ++ Tx w_BEGIN :: post ->
     exists p1 l p2, pre = p1 ++ Rx l :: p2 /\ ok_line l = true /\
+      (forall r, In (Rx r) p2 -> str_eqb (word r) w_REJECTED = false) /\
       (unix = true -> exists l', In (Rx l') p2 /\ fd_answer_line l' = true).
 Proof. exact begin_only_after_ok. Qed.
 
@@ -176,6 +179,45 @@ Example C07_unix_begin :
   ok_line ex_ok = true /\ fd_answer_line w_ERROR = true.
 Proof. vm_compute. repeat split; reflexivity. Qed.
 
+(* The OK must stand (non-vacuity of the REJECTED clause of [advance]).  On a UNIX
+   transport the server sends  OK <guid>, REJECTED, then ERROR (or AGREE_UNIX_FD).
+   A client that answers the third line with BEGIN - as txdbus does when
+   authTryNextMethod no longer resets unixFDNegotiating (seeded change C07-11) -
+   is judged 8 (BEGIN without a standing OK), and by that clause alone: its offers
+   are in order and every single exchange is judged favourably.  The model of the
+   tree under test, on the same three lines, offers the next mechanism after ERROR
+   (and closes on the stray AGREE_UNIX_FD); its sessions are judged 0. *)
+Definition ex_withdrawn_init : list ev := [TxRaw [0]; Tx (s_AUTH_ ++ s_EXTERNAL)].
+Definition ex_withdrawn (last : bytes) : list exchange :=
+  [ (ex_ok, [Tx w_NEGOTIATE_UNIX_FD]);
+    (w_REJECTED, [Tx (s_AUTH_ ++ s_COOKIE ++ [32])]);
+    (last, [Tx w_BEGIN; Binary]) ].
+
+Example C07_withdrawn_ok_refused :
+  session_verdict preference true ex_withdrawn_init (ex_withdrawn w_ERROR) = 8 /\
+  session_verdict preference true ex_withdrawn_init (ex_withdrawn w_AGREE_UNIX_FD) = 8 /\
+  offers_in_order preference (trace ex_withdrawn_init (ex_withdrawn w_ERROR)) = true /\
+  exchanges_verdict preference ex_withdrawn_init (ex_withdrawn w_ERROR) = 0 /\
+  exchanges_verdict preference ex_withdrawn_init (ex_withdrawn w_AGREE_UNIX_FD) = 0 /\
+  session_observed no_user (fun _ _ => LRaised) no_nonce no_sha true [ex_ok; w_REJECTED; w_ERROR] =
+    (ex_withdrawn_init,
+     [ (ex_ok, [Tx w_NEGOTIATE_UNIX_FD]);
+       (w_REJECTED, [Tx (s_AUTH_ ++ s_COOKIE ++ [32])]);
+       (w_ERROR, [Tx (s_AUTH_ ++ s_ANONYMOUS ++ [32] ++ hexlify s_txdbus)]) ]) /\
+  session_verdict preference true ex_withdrawn_init
+    (snd (session_observed no_user (fun _ _ => LRaised) no_nonce no_sha true [ex_ok; w_REJECTED; w_ERROR])) = 0 /\
+  snd (session_observed no_user (fun _ _ => LRaised) no_nonce no_sha true [ex_ok; w_REJECTED; w_AGREE_UNIX_FD]) =
+     [ (ex_ok, [Tx w_NEGOTIATE_UNIX_FD]);
+       (w_REJECTED, [Tx (s_AUTH_ ++ s_COOKIE ++ [32])]);
+       (w_AGREE_UNIX_FD, [Closed]) ] /\
+  (* a second OK after the REJECTED stands again: OK, REJECTED, OK, ERROR -> BEGIN is accepted *)
+  session_verdict preference true ex_withdrawn_init
+    [ (ex_ok, [Tx w_NEGOTIATE_UNIX_FD]);
+      (w_REJECTED, [Tx (s_AUTH_ ++ s_COOKIE ++ [32])]);
+      (ex_ok, [Tx w_NEGOTIATE_UNIX_FD]);
+      (w_ERROR, [Tx w_BEGIN; Binary]) ] = 0.
+Proof. vm_compute. repeat split; reflexivity. Qed.
+
 (* all three mechanisms are offered in order, then the fourth REJECTED closes; a later
    line gets no reaction; a line outside the protocol closes at once *)
 Example C07_exhaustion :
@@ -259,13 +301,16 @@ Theorem C07_handshake_tail_is_binary :
        snd (FramingSpec.frames_of rest)).
 Proof. exact handshake_tail_is_binary. Qed.
 
-(* C07_begin_only_after_ok for arbitrary reads. *)
+(* C07_begin_only_after_ok for arbitrary reads: the stream's lines are  a, the OK,
+   a stretch b1 without REJECTED that (on a UNIX transport) holds the answer to
+   the negotiation, and the rest b2. *)
 Theorem C07_begin_only_after_ok_reads :
   forall user lookup nonce sha1hex unix (chunks : list bytes),
     In (Send w_BEGIN) (reads_outs user lookup nonce sha1hex unix chunks) ->
-    exists a l b, stream_lines (concat chunks) = a ++ l :: b /\ ok_line l = true /\
-      (unix = true -> exists l', In l' b /\ fd_answer_line l' = true).
-Proof. exact begin_only_after_ok_reads. Qed.
+    exists a l b1 b2, stream_lines (concat chunks) = a ++ l :: b1 ++ b2 /\ ok_line l = true /\
+      (forall r, In r b1 -> str_eqb (word r) w_REJECTED = false) /\
+      (unix = true -> exists l', In l' b1 /\ fd_answer_line l' = true).
+Proof. exact begin_only_after_standing_ok_reads. Qed.
 
 (* C07_offers_in_order_once for arbitrary reads. *)
 Theorem C07_offers_in_order_once_reads :
